@@ -1015,8 +1015,10 @@ class YAMLPath:
 
         Returns:  (str) `section` with all special symbols escaped
         """
-        return YAMLPath.ensure_escaped(
-            section,
+        specials = (
             '\\', str(pathsep), '(', ')', '[', ']', '^', '$', '%',
             ' ', "'", '"'
         )
+        return "".join(
+            "\\" + char if char in specials else char
+            for char in str(section))
